@@ -357,7 +357,7 @@ func (w *hWorld) hBody(f hFuncSpec, recv []hRecv) (outs []interface{}, err error
 	}
 	if f.HasErr && fails {
 		ex.Err = true
-		w.Log = append(w.Log, ex)
+		vnLocked(func() { w.Log = append(w.Log, ex) })
 		return nil, w.Errs[f.ID]
 	}
 	for j, l := range f.Out {
@@ -369,7 +369,7 @@ func (w *hWorld) hBody(f hFuncSpec, recv []hRecv) (outs []interface{}, err error
 		outs = append(outs, hMk(t, id))
 		ex.Out = append(ex.Out, hVal{L: hLabel{l.Name, t, l.Sub}, ID: id})
 	}
-	w.Log = append(w.Log, ex)
+	vnLocked(func() { w.Log = append(w.Log, ex) })
 	return outs, nil
 }
 
